@@ -254,6 +254,7 @@ L_SERVES = {
     'theorems':  [],
     'lem_traced': ['C10', 'C06'],
     'lem_term': ['C02', 'C09'],
+    'sl': ['C14'],
     'lem_exact': ['C02', 'C07'],
     'bcast_x': ['C02', 'C07'],
     'witness': [],
